@@ -47,7 +47,7 @@ KERNELS = [
     ["add", ["cp", 0, "SE", "SE"], "WN"],
 ]
 NOISES = ["none", "y_err", "y_cov_diag", "y_cov_full"]
-ND_ALL = [(n, d) for d in (1, 2, 3) for n in (2, 3, 4, 5, 8)]
+ND_ALL = [(n, d) for d in (1, 2, 3) for n in (2, 3, 5, 8)] + [(4, 1), (4, 2)]
 DESIGNS = ["regular", "clustered", "permuted"]
 
 
@@ -373,8 +373,8 @@ EVALUATORS = {"gp": ev_gp}
 def run(ck):
     seed, quick = ck.seed, ck.quick
     if quick:
-        menu = [(3, 1), (5, 2), (8, 3), (2, 2), (8, 1), (3, 3), (5, 1), (2, 3), (8, 2), (3, 2), (5, 3)]
-        nd = [(2, 1)] + [menu[(4 * seed + i) % len(menu)] for i in range(4)]
+        menu = [(3, 1), (5, 2), (8, 3), (4, 1), (2, 2), (8, 1), (3, 3), (4, 2), (5, 1), (2, 3), (8, 2), (3, 2), (5, 3)]
+        nd = [(2, 1)] + [menu[(3 * seed + i) % len(menu)] for i in range(3)]
     else:
         nd = ND_ALL
     cases = []
